@@ -17,6 +17,7 @@ import numpy as np
 import pandas as pd
 
 from .core import Prop, f2h, h2f, close
+from . import praj
 
 SOURCES = [
     "src/pylife/strength/fkm_nonlinear/assessment_nonlinear_standard.py",
@@ -140,6 +141,8 @@ def summary(res, n, raj=True):
     for key in keys:
         for i, v in enumerate(vec(res[key], n)):
             out[i][key] = bool(v) if "infinite" in key else float(v)
+    for i, v in enumerate(vec(res["P_RAM_lifetime_n_times_load_sequence"], n)):
+        out[i]["P_RAM_passes"] = float(v)
     # margins of the infinite-life verdicts
     dc = res["P_RAM_damage_calculator"]
     pmax = vec(dc.P_RAM_max, n)
@@ -278,6 +281,24 @@ def gen_cs(rng, n):
     return [c0] + [rng.randint(c0 // 2, c0 + c0 // 2) for _ in range(n - 1)]
 
 
+HOT_LADDER = [1.6, 2.2, 3.0, 4.0, 5.5, 7.5, 10.0, 14.0, 20.0]   # load ratios tried for a hot spot (relative to the ordinary point)
+
+
+def hot_ratio(job):
+    """Smallest ratio of HOT_LADDER at which the point (alone, P_RAM only) reaches the damage sum one within the two
+    recorded passes (`lifetime_n_times_load_sequence == 0`), as an integer in units of 1/c0; None if there is none."""
+    par, L, c0, G = job
+    for r in HOT_LADDER:
+        c = int(round(r * c0))
+        try:
+            res = assess(par, L, [c0, c], [G, G], [1], raj=False)
+        except SolverFailure:
+            return None
+        if float(np.asarray(res["P_RAM_lifetime_n_times_load_sequence"]).reshape(-1)[0]) == 0.0:
+            return c
+    return None
+
+
 def _par_worker(args):
     lo, hi = args
     return lo, [_PAR["fn"](c) for c in _PAR["cases"][lo:hi]]
@@ -305,7 +326,7 @@ def par_map(fn, cases, procs):
 class C10(Prop):
     ID = "C10"
     SOURCES = SOURCES
-    LEAN_MODULES = ["Proofs.C10"]
+    LEAN_MODULES = ["Proofs.C10", "Proofs.PRAJ"]
     PARALLEL = 16
     THEOREMS = [
         "PylifeVerif.C10.assessment_batch_independent_PRAM",
@@ -319,12 +340,24 @@ class C10(Prop):
         "PylifeVerif.C10.lifetime_antitone_in_PA_partial",
         "PylifeVerif.Assess.classQ_first_eq_own",
         "PylifeVerif.Assess.nCycles_antitone",
+        "PylifeVerif.PRAJ.hystP_value",
+        "PylifeVerif.PRAJ.hystP_nonneg_zero_iff",
+        "PylifeVerif.PRAJ.stepRow_P",
+        "PylifeVerif.PRAJ.praj_strictMono_continuous_in_range",
+        "PylifeVerif.PRAJ.class_exists_unique",
+        "PylifeVerif.PRAJ.classwise_damage_eq_hysteresiswise",
+        "PylifeVerif.PRAJ.xbar_loop_closed_form",
+        "PylifeVerif.PRAJ.xbarOld_depends_on_start",
+        "PylifeVerif.PRAJ.praj_batch_independent_of_hcm_batch",
+        "PylifeVerif.PRAJ.praj_batch_independent",
+        "PylifeVerif.PRAJ.N10_le_N50_le_N90_PRAJ_partial",
     ]
     # assessment_batch_independent_PRAM / assessment_sample_insensitive are unconditional (the HCM facts are
     # C05.hcm_batch_eq_single_code, C04.hcm_insert_nonreversal_interior_code, C04.hcm_append_nonreversal_code, all about
     # twoPass = the code); the `_of_hcm_...` forms (same conclusion from the HCM statements as hypotheses) are kept.
     # Both are statements about the P_RAM pipeline; the P_RAJ part of C10 is decided by the oracle only (ASSUMPTIONS).
     PARTIAL = {
+        "PylifeVerif.PRAJ.N10_le_N50_le_N90_PRAJ_partial": "hypothesis 0 <= lifetime (needs f(j+1) >= f(j) for the classes j >= q, true only while the bracket of eq. 2.9-139 is positive)",
         "PylifeVerif.C10.lifetime_antitone_in_curve_partial": "hypothesis Regime: the lower curve does not fail within the two recorded passes, or the first pass recorded at most one hysteresis more than the second (early-failure lifetime counts hystereses of both passes, the regular one multiples of pass 2)",
         "PylifeVerif.C10.lifetime_antitone_in_load_scale_partial": "per-hysteresis step (P_RAM of every hysteresis non-decreasing in the load scale for the binned Masing law) is a hypothesis; Regime as above; the real code is covered by the oracle",
         "PylifeVerif.C10.N10_le_N50_le_N90_partial": "hypothesis: first-pass damage on the 50 % curve <= 1 (beyond it the code's (1-D1)/D2 is negative and not monotone)",
@@ -333,7 +366,7 @@ class C10(Prop):
     }
     RULE = ("case = one relation of the property evaluated with real assessments (perform_fkm_nonlinear_assessment, P_RAM and P_RAJ, per-point load maxima requested): "
             "corr = model vs code for a batch of 1-4 points and for one of its points alone (parameters, every hysteresis' P_RAM, verdict, early-failure index, lifetimes, N_10/50/90); "
-            "batch = every point of a batch vs alone; refine = non-reversal / repeated / appended samples; mono = load scale, roughness (R_z or K_R,P), P_A; n105090. "
+            "batch = every point of a batch vs alone, incl. batches with a hot spot (a point constructed from its single-point result to reach the damage sum one within the two recorded passes) in first / middle / last position next to finite- and infinite-life points; refine = non-reversal / repeated / appended samples; mono = load scale, roughness (R_z or K_R,P), P_A; n105090. "
             "3 material groups x 3-4 tensile strengths, sequences of 3-10 (14) integer loads up to 0.25-1.0 R_m (some 2-6 R_m), ratios 0.5-1.5, uniform / per-point G, P_A from the guideline table and free values, "
             "blanket / normal / lognormal load safety; loads exactly on a class edge with an inexact float edge are not generated; non-trivial = at least one hysteresis and a finite P_RAM value; distinct by (loads, ratios, material)")
     ASSUMPTIONS = [
@@ -348,7 +381,8 @@ class C10(Prop):
     def __init__(self):
         self.stats = {"kinds": {}, "groups": {}, "assessments": 0, "nodes": {}, "seq_len": {}, "memory3_rows": 0,
                       "early_failure": 0, "infinite_ram": 0, "infinite_raj": 0, "finite_ram": 0, "finite_raj": 0,
-                      "hystereses": 0, "per_point_G": 0, "solver_failures": 0}
+                      "hystereses": 0, "per_point_G": 0, "solver_failures": 0,
+                      "hot_not_found": 0, "hot_batches": 0, "early_failure_points_in_batches": 0}
         self.exhaustive = False
         self._cache = {}
 
@@ -417,8 +451,42 @@ class C10(Prop):
             nn = rng.choice([1, 1, 2, 3])
             cases.append({"kind": "n105090", "par": par, "L": gen_loads(rng, par["Rm"], rng.randint(4, maxlen), extreme=rng.random() < 0.2),
                           "cs": gen_cs(rng, nn), "G": gen_G(rng, nn)})
+        # batches with a hot spot: one point reaches the damage sum one within the two recorded passes (the early-failure
+        # branch of DamageCalculatorPRAM), in first / middle / last position next to finite-life and infinite-life points
+        n_hot = 9 if quick else 60
+        protos = []
+        for _ in range(n_hot):
+            par = gen_par(rng, table_pa=True)
+            par["Kp"] = rng.choice([2.5, 3.5])
+            if rng.random() < 0.5:
+                par.update(Rm=RM[par["group"]][0], Rz=200.0, krp=None, PA=1e-5)     # weak, rough, small P_A
+            protos.append((par, gen_loads(rng, par["Rm"], rng.randint(4, maxlen)), 20, rng.choice([0.0, 2 / 15, 0.5])))
+        hots = par_map(hot_ratio, protos, self.PARALLEL)
+        for i, ((par, L, c0, G), ch) in enumerate(zip(protos, hots)):
+            if ch is None:
+                self.stats["hot_not_found"] += 1
+                continue
+            others = [c0, rng.randint(4, 7), rng.randint(c0 // 2, c0 + c0 // 2)]          # ordinary, (nearly) infinite life, ordinary
+            others = others[:rng.randint(1, 3)]
+            pos = i % 3                                                                   # hot spot first / middle / last
+            if pos == 0:
+                # the first point's loads are L itself (ratios are relative to the first point): scale L by an integer
+                # m >= hot ratio and give the other points the ratios c/(m*c0)
+                m = -(-ch // c0)
+                L = [m * l for l in L]
+                cs = [m * c0] + others
+                ch = m * c0
+            else:
+                cs = others + [ch] if pos == 2 else others[:1] + [ch] + others[1:]
+            if i % 3 == 0 and not quick or (quick and i % 4 == 0):
+                cases.append({"kind": "corr", "par": par, "L": L, "cs": cs, "G": [G] * len(cs), "k": rng.randrange(len(cs)), "hot": cs.index(ch)})
+            else:
+                cases.append({"kind": "batch", "par": par, "L": L, "cs": cs, "G": [G] * len(cs), "hot": cs.index(ch), "ram_only": True})
+        cases += praj.generate(rng, tier)
         rng.shuffle(cases)
         self._precompute(cases)
+        praj.precompute(cases, self.PARALLEL)
+        self.stats["praj"] = praj.stats()
         return cases
 
     # ------------------------------------------------------------ correspondence
@@ -491,12 +559,16 @@ class C10(Prop):
                 self.stats["per_point_G"] += 1
 
     def model_lines(self, case):
+        if case["kind"] == "praj":
+            return praj.model_lines(case)
         if case["kind"] != "corr":
             return []
         self._precompute([case])
         return self._cache[self._key(case)][0]
 
     def impl_lines(self, case):
+        if case["kind"] == "praj":
+            return praj.impl_lines(case)
         if case["kind"] != "corr":
             return []
         self._precompute([case])
@@ -524,6 +596,8 @@ class C10(Prop):
         return " ; ".join(out)
 
     def compare(self, case, model_out, impl_out):
+        if case["kind"] == "praj":
+            return praj.compare(case, model_out, impl_out)
         if len(model_out) != len(impl_out):
             return f"length {len(model_out)} vs {len(impl_out)}"
         for li, (m, i) in enumerate(zip(model_out, impl_out)):
@@ -545,6 +619,8 @@ class C10(Prop):
         return None
 
     def nontrivial(self, case, model_out):
+        if case["kind"] == "praj":
+            return praj.nontrivial(case, model_out)
         if case["kind"] != "corr" or not model_out:
             return None
         # at least one closed hysteresis in the second pass and a finite lifetime
@@ -568,6 +644,9 @@ class C10(Prop):
     def _oracle_corr(self, case):
         return None
 
+    def _oracle_praj(self, case):
+        return praj.oracle(case)
+
     def _cmp_same(self, a, b, what, ctx, klass_prefix):
         """a, b: summaries of the same point obtained in two ways that the property says give the same result"""
         for pre, tol in (("P_RAM", TOL_RAM), ("P_RAJ", TOL_RAJ)):
@@ -578,16 +657,23 @@ class C10(Prop):
                 return (f"{pre} infinite-life verdict differs ({what}): {a[ik]} vs {b[ik]}; {ctx}", f"{klass_prefix}-{pre}-verdict")
             if not relclose(a[lk], b[lk], tol):
                 return (f"{pre} lifetime differs ({what}): {a[lk]!r} vs {b[lk]!r}; {ctx}", f"{klass_prefix}-{pre}-lifetime")
+            if pre == "P_RAM" and not relclose(a["P_RAM_passes"], b["P_RAM_passes"], tol):
+                return (f"P_RAM bearable passes of the load sequence differ ({what}): {a['P_RAM_passes']!r} vs {b['P_RAM_passes']!r}; {ctx}",
+                        f"{klass_prefix}-P_RAM-lifetime")
         return None
 
     def _oracle_batch(self, case):
         par, L, cs, Gs = case["par"], case["L"], case["cs"], case["G"]
         nn = len(cs)
-        rb = summary(assess(par, L, cs, Gs, list(range(nn))), nn)
+        raj = not case.get("ram_only")
+        rb = summary(assess(par, L, cs, Gs, list(range(nn)), raj=raj), nn, raj=raj)
         self.stats["assessments"] += 1 + nn
         self._note(rb)
+        if "hot" in case:
+            self.stats["hot_batches"] += 1
+            self.stats["early_failure_points_in_batches"] += sum(1 for x in rb if x["P_RAM_passes"] == 0.0)
         for k in range(nn):
-            rs = summary(assess(par, L, cs, Gs, [k]), 1)[0]
+            rs = summary(assess(par, L, cs, Gs, [k], raj=raj), 1, raj=raj)[0]
             r = self._cmp_same(rb[k], rs, f"point {k} in the batch vs alone",
                                f"group={par['group']} R_m={par['Rm']} K_p={par['Kp']} P_A={par['PA']} loads={L} ratios={[c / cs[0] for c in cs]} G={Gs}", "batch")
             if r:
@@ -673,7 +759,9 @@ class C10(Prop):
 
     # ------------------------------------------------------------ shrinking
     def shrink(self, case, still_fails):
-        cur = {k: v for k, v in case.items() if not k.startswith("_")}
+        if case["kind"] == "praj":
+            return case
+        cur = {k: v for k, v in case.items() if not k.startswith("_") and k != "hot"}   # "hot" (position of the hot spot) is bookkeeping only
         # fewer points
         changed = True
         while changed and len(cur["cs"]) > (2 if cur["kind"] == "batch" else 1):
